@@ -29,6 +29,7 @@ import (
 
 	"github.com/anishathalye/porcupine"
 
+	"github.com/olareg/olareg"
 	"github.com/olareg/olareg/internal/verif/vh"
 	"github.com/olareg/olareg/internal/verif/vsync"
 )
@@ -201,8 +202,22 @@ func history(r *vh.Run, hidx int) {
 		pol.Grace = 25 * time.Millisecond
 		r.Count("histories_with_repository_expiry", 1)
 	}
-	srv := vh.New(vh.Conf(kind, root, pol))
-	defer srv.Close()
+	// a sixth of the histories run on the memory store over a directory that a directory store filled before: the
+	// clients' first requests load the repository from disk while the others already use it
+	memdir := hidx%6 == 2
+	if memdir {
+		kind = vh.MemDir
+		root = r.TempDir("c11")
+		defer vh.RemoveAll(root)
+		r.Count("histories_on_memory_over_directory", 1)
+	}
+	var srv *olareg.Server
+	if memdir {
+		srv = vh.New(vh.Conf(vh.Dir, root, pol))
+	} else {
+		srv = vh.New(vh.Conf(kind, root, pol))
+	}
+	defer func() { srv.Close() }()
 	repo := "r"
 	cfg := &vh.Blob{Name: "cfg", B: []byte(fmt.Sprintf(`{"h":%d}`, hidx))}
 	cfg.D = vh.DigestOf("sha256", cfg.B)
@@ -217,6 +232,10 @@ func history(r *vh.Run, hidx int) {
 		m := mk(fmt.Sprintf("S%d", s), "")
 		vh.Do(srv, vh.Req{Method: "PUT", URL: "/v2/" + repo + "/manifests/" + m.D, H: map[string]string{"Content-Type": m.MT}, Body: m.Raw})
 		subjects = append(subjects, m.D)
+	}
+	if memdir {
+		srv.Close()
+		srv = vh.New(vh.Conf(vh.MemDir, root, pol))
 	}
 	if rng.Intn(3) == 0 {
 		subjects = append(subjects, vh.DigestOf("sha256", []byte(fmt.Sprint("missing", hidx)))) // a subject that does not exist
@@ -745,5 +764,5 @@ func main() {
 	r.Require("histories", int64(n))
 	r.Require("operations", int64(n*40))
 	r.RequireDistinct("overlap_shapes", n/2)
-	r.Finish("short concurrent histories: 4-8 clients x 6-10 operations on one repository (tag pushes of shared and fresh images over 2-3 tags, tag deletes, deletes by digest, artifact pushes to 1-3 shared subjects incl. a missing one, artifact deletes, 2-3 shared artifacts (one of them an index with a subject) that any client pushes again, deletes and probes, a third of the private artifacts are indexes with a subject, a quarter of the histories run with a 25 ms grace period and synchronous pauses so that the cached repository object expires and is reloaded under traffic, reads of tags / manifests / referrers / the tag listing (seen per tag as named-iff-it-resolves)), a background collection loop with a retain-everything policy and a client that keeps creating index entries without content for it to prune, final reads of every tag and shared artifact recorded as the last operations, both stores, seeded jitter before lock acquisitions in the vsync build; every history checked with porcupine (nondeterministic model, partitioned by object) and at quiescence; a case is one history, distinct = distinct interval orders (call/return shapes) with at least two overlapping requests", "histories", "overlap_shapes")
+	r.Finish("short concurrent histories: 4-8 clients x 6-10 operations on one repository (tag pushes of shared and fresh images over 2-3 tags, tag deletes, deletes by digest, artifact pushes to 1-3 shared subjects incl. a missing one, artifact deletes, 2-3 shared artifacts (one of them an index with a subject) that any client pushes again, deletes and probes, a third of the private artifacts are indexes with a subject, a quarter of the histories run with a 25 ms grace period and synchronous pauses so that the cached repository object expires and is reloaded under traffic, reads of tags / manifests / referrers / the tag listing (seen per tag as named-iff-it-resolves)), a background collection loop with a retain-everything policy and a client that keeps creating index entries without content for it to prune, final reads of every tag and shared artifact recorded as the last operations, both stores and (a sixth of the histories) the memory store over a directory filled beforehand, seeded jitter before lock acquisitions in the vsync build; every history checked with porcupine (nondeterministic model, partitioned by object) and at quiescence; a case is one history, distinct = distinct interval orders (call/return shapes) with at least two overlapping requests", "histories", "overlap_shapes")
 }
